@@ -274,17 +274,26 @@ def shapeDiagonal (s : Shape) (offset : Int) (ax1 ax2 : Nat) : Option Shape :=
     if 0 ≤ m then some (rest ++ [m.toNat]) else none
   | _, _ => none
 
-/-- `index::diagonal(src_shape, indices, offset, axis1, axis2)`: the other axes take the leading destination
-    coordinates in order; `result[axis1] = indices[-1]`, `result[axis2] = indices[-1] + offset` (sic — also for a negative
-    offset; the sum is computed in the unsigned index type, i.e. it is "negative" = wrapped) -/
+/-- the loop of `index::diagonal`: walking the source axes `0..dim-1`, every axis other than the two diagonal ones takes
+    the next destination coordinate (`at(indices, idx_i++)`); the two assignments after the loop
+    (`result[axis1] = v1; result[axis2] = v2`, the second one winning when the axes coincide) are folded in -/
+def diagonalFill (ax1 ax2 : Nat) (v1 v2 : Int) : List Nat → Idx → List Int
+  | [], _ => []
+  | i :: is, ds =>
+    if i = ax2 then v2 :: diagonalFill ax1 ax2 v1 v2 is ds
+    else if i = ax1 then v1 :: diagonalFill ax1 ax2 v1 v2 is ds
+    else
+      match ds with
+      | x :: xs => (x : Int) :: diagonalFill ax1 ax2 v1 v2 is xs
+      | [] => 0 :: diagonalFill ax1 ax2 v1 v2 is []
+
+/-- `index::diagonal(src_shape, indices, offset, axis1, axis2)`: `result[axis1] = indices[-1]`,
+    `result[axis2] = indices[-1] + offset` (sic — also for a negative offset; the sum is computed in the unsigned index
+    type, i.e. a "negative" coordinate is a wrapped one) -/
 def diagonalIdx (srcDim : Nat) (d : Idx) (offset : Int) (ax1 ax2 : Nat) : List Int :=
-  let lastv : Int := (d.getLast?.getD 0 : Nat)
-  let rest := (List.range srcDim).filter (fun i => i ≠ ax1 ∧ i ≠ ax2)
-  let base : List Int := (List.range srcDim).map (fun i =>
-    match rest.idxOf? i with
-    | some p => ((d.getD p 0 : Nat) : Int)
-    | none => 0)
-  (base.set ax1 lastv).set ax2 (lastv + offset)
+  match d.getLast? with
+  | some last => diagonalFill ax1 ax2 (last : Int) ((last : Int) + offset) (List.range srcDim) d
+  | none => []
 
 /-- element read of a leaf `ndarray_t` at a (possibly wrapped) index: `data_.at(Σ strides·idx mod 2^64)`;
     `some p` = buffer position `p` is read, `none` = the range check of the buffer throws -/
